@@ -254,8 +254,9 @@ func runCtxPass(c *core.Ctx) {
 }
 
 func clip(s string, n int) string {
-	if len(s) > n {
-		return s[:n] + "…"
+	r := []rune(s)
+	if len(r) > n {
+		return string(r[:n]) + "…"
 	}
 	return s
 }
